@@ -87,6 +87,23 @@ func TestVerifC07Aac(t *testing.T) {
 		{name: "aac.asc.dec", modelled: true, gen: func(r *vRng) []byte { return r.bytes(2 + r.intn(3)) }, run: func(b []byte) bool {
 			return (&AudioSpecificConfig{}).UnmarshalBinary(b) != nil
 		}},
+		// after-error reuse of one ADTS object
+		{name: "aac.adts.reuse", gen: vC07Reuse(vC07AacStream), run: func(b []byte) bool {
+			d, _ := NewADTS()
+			p1, p2 := vC07Split2(b)
+			_, _, e1 := d.Decode(p1)
+			vC07AacUse(d.ASC())
+			raw, left, e2 := d.Decode(p2)
+			vC07AacUse(d.ASC())
+			if e2 == nil {
+				_, _ = d.Encode(raw)
+				_, _, _ = d.Decode(left)
+			}
+			e3 := d.SetASC(p1)
+			_ = d.SetASC([]byte{0x12, 0x10})
+			_, _ = d.Encode([]byte{1, 2, 3})
+			return e1 != nil && e2 != nil && e3 != nil
+		}},
 		// every 2-byte AudioSpecificConfig, exhaustively (thorough tier; see vC07Drive)
 		{name: "aac.asc2", sweep: 2, thoroughOnly: true, run: func(b []byte) bool {
 			a := &AudioSpecificConfig{}
